@@ -75,7 +75,7 @@ inline InstCfg fuzzCfg(const World &w, size_t bufLen, int queueLen, size_t heapL
 
 // classification pass (VF_CLASSIFY_OUT=<file>): counts inputs that reached >= 1 handler or >= 1 queued error
 struct Classify {
-    uint64_t inputs = 0, nontrivial = 0, handlers = 0, errors = 0, overruns = 0, flushCalls = 0, direct = 0;
+    uint64_t inputs = 0, nontrivial = 0, handlers = 0, errors = 0, overruns = 0, flushCalls = 0, direct = 0, noCallbacks = 0;
     std::vector<std::string> samples;
     const char *path = nullptr;
     static Classify &get() { static Classify c; return c; }
@@ -84,8 +84,8 @@ struct Classify {
         if (!c.path) return;
         FILE *f = fopen(c.path, "w");
         if (!f) return;
-        fprintf(f, "inputs=%llu\nnontrivial=%llu\nhandlers=%llu\nerrors=%llu\noverruns=%llu\nflushes=%llu\ndirect=%llu\n", (unsigned long long) c.inputs, (unsigned long long) c.nontrivial,
-                (unsigned long long) c.handlers, (unsigned long long) c.errors, (unsigned long long) c.overruns, (unsigned long long) c.flushCalls, (unsigned long long) c.direct);
+        fprintf(f, "inputs=%llu\nnontrivial=%llu\nhandlers=%llu\nerrors=%llu\noverruns=%llu\nflushes=%llu\ndirect=%llu\nnocallbacks=%llu\n", (unsigned long long) c.inputs, (unsigned long long) c.nontrivial,
+                (unsigned long long) c.handlers, (unsigned long long) c.errors, (unsigned long long) c.overruns, (unsigned long long) c.flushCalls, (unsigned long long) c.direct, (unsigned long long) c.noCallbacks);
         for (auto &s : c.samples) fprintf(f, "sample=%s\n", hexEnc(s).c_str());
         fclose(f);
     }
@@ -93,7 +93,7 @@ struct Classify {
     void note(Inst &I, const std::string &stream) {
         if (!path) return;
         inputs++;
-        bool nt = I.handlerCalls > 0 || !I.errors.empty();
+        bool nt = I.handlerCalls > 0 || !I.errors.empty() || SCPI_ErrorCount(&I.ctx) > 0;
         if (nt) { nontrivial++; if (samples.size() < 8 && (nontrivial & (nontrivial - 1)) == 0) samples.push_back(stream.substr(0, 200)); }
         handlers += (uint64_t) I.handlerCalls; errors += I.errors.size();
         for (int e : I.errors) if (e == -363) overruns++;
